@@ -40,6 +40,7 @@ LABELS = [10, 11, 12]
 
 OPERANDS = {
     'i5': lambda: 5, 'f2.5': lambda: 2.5, 'bT': lambda: True, 'sab': lambda: 'ab', 'nan': lambda: float('nan'),
+    'i0': lambda: 0, 'bF': lambda: False, 'list_zeros': lambda: [0, 0, 0],
     'list_n': lambda: [1, 2, 3], 'tuple_n': lambda: (1.5, 2.5, 3.5), 'range_n': lambda: range(N),
     'liststr': lambda: ['a', 'b', 'c'], 'listbool': lambda: [True, False, True],
     'list_n+1': lambda: [1, 2, 3, 4], 'list_n-1': lambda: [1, 2], 'list_1': lambda: [7], 'list_0': lambda: [],
